@@ -68,13 +68,16 @@ def run(ctx: Context) -> None:
         "and compares the resulting AST with the committed httpcore/_sync/*.py over whole files (no zip truncation), plus "
         "equality of the file sets; R2 checks that each async/sync primitive pair and each backend twin offers the same "
         "interface (method names and parameters) and that the mock twins are AST-equal after de-async; R3 resolves every "
-        "import of every _sync module.  Decides the clause 'the synchronous sources are exactly the mechanical translation'; "
+        "import of every _sync module; R5 compares the hand-written sync/async method pairs that live in shared modules (Response.read/aread, "
+        "iter_stream/aiter_stream, close/aclose, ByteStream.__iter__/__aiter__, Trace's context-manager methods) after de-async with string "
+        "literals blanked.  Decides the clause 'the synchronous sources are exactly the mechanical translation'; "
         "run-time equality of threading vs anyio/trio primitives is not decided."
     )
     rep.rule("C18.R1", "ast(unasync(httpcore/_async/X.py)) == ast(httpcore/_sync/X.py) for every X, identical file sets")
     rep.rule("C18.R2", "primitive pairs / backend twins agree on method names and parameters; mock twins AST-equal after de-async")
     rep.rule("C18.R3", "every name imported by a _sync module exists in its source module")
     rep.rule("C18.R4", "every backend implementation has exactly the base interface's method signatures")
+    rep.rule("C18.R5", "hand-written sync/async method pairs of shared classes (Response, ByteStream, Trace) are equal after de-async, string literals aside")
 
     adir = os.path.join(prog.root, "httpcore", "_async")
     sdir = os.path.join(prog.root, "httpcore", "_sync")
@@ -195,6 +198,9 @@ def run(ctx: Context) -> None:
                        f"{sub.name}.{mname} signature {_sig(sf)} async={sf.is_async} vs interface {iface_name} {_sig(bf)} async={bf.is_async}")
     rep.floor("C18.R4", "backend method implementations", impls, 30)
 
+    # R5 hand-written sync/async method pairs inside shared modules (not produced by the translator)
+    _shared_pairs(ctx)
+
     # R3 imports of the sync tree resolve
     nimp = 0
     for m in ctx.names("sync").modules():
@@ -221,3 +227,63 @@ def _dedent(s: str) -> str:
     import textwrap
 
     return textwrap.dedent(s)
+
+
+# pairs whose bodies legitimately differ in structure (each with the reason)
+PAIR_EXCEPTIONS = {("Trace", "trace"): "sync callback must NOT return a coroutine, async callback must: the checks are mirror images by design"}
+
+
+class _Blank(ast.NodeTransformer):
+    def visit_Constant(self, n: ast.Constant) -> ast.AST:
+        if isinstance(n.value, str):
+            return ast.copy_location(ast.Constant(value=""), n)
+        return n
+
+    def visit_JoinedStr(self, n: ast.JoinedStr) -> ast.AST:
+        return ast.copy_location(ast.Constant(value=""), n)
+
+
+def _shared_pairs(ctx: Context) -> None:
+    import re
+    import textwrap
+
+    rep, prog = ctx.rep, ctx.prog
+    npairs = 0
+    for modname in ("httpcore._models", "httpcore._trace"):
+        m = prog.module(modname)
+        lines = m.src.splitlines(keepends=True)
+        for c in m.classes.values():
+            names = set(c.methods)
+            for an, am in c.methods.items():
+                sn = prog.unasync_line(an)
+                if sn == an and an.startswith("a") and an[1:] in names and am.is_async:
+                    sn = an[1:]
+                if sn == an or sn not in names:
+                    continue
+                sm = c.methods[sn]
+                npairs += 1
+                if (c.name, sn) in PAIR_EXCEPTIONS:
+                    rep.ob("C18.R5", f"shared|{c.name}.{sn}|pair", _sig(am) == _sig(sm), sm.where, f"signatures agree; bodies differ by design: {PAIR_EXCEPTIONS[(c.name, sn)]}")
+                    continue
+                first = min([am.node.lineno] + [d.lineno for d in am.node.decorator_list])
+                seg = textwrap.dedent("".join(lines[first - 1: am.node.end_lineno]))
+                seg = "".join(prog.unasync_line(l) for l in seg.splitlines(keepends=True))
+                # sibling helpers named a<name> (atrace) map to <name>
+                for other in names:
+                    if other.startswith("a") and other[1:] in names:
+                        seg = re.sub(r"\b" + other + r"\b", other[1:], seg)
+                try:
+                    t = ast.parse(seg).body[0]
+                except SyntaxError as exc:
+                    raise AnalysisError(f"cannot de-async {am.qual}: {exc}") from exc
+                t.name = sn  # type: ignore[attr-defined]
+                a_dump = _dump(_Blank().visit(t))
+                s_dump = _dump(_Blank().visit(ast.parse(textwrap.dedent("".join(lines[min([sm.node.lineno] + [d.lineno for d in sm.node.decorator_list]) - 1: sm.node.end_lineno]))).body[0]))
+                ok = a_dump == s_dump
+                detail = f"{c.name}.{sn} equals de-asynced {c.name}.{an} (string literals aside)"
+                if not ok:
+                    d = _first_diff(_Blank().visit(t), _Blank().visit(ast.parse(textwrap.dedent("".join(lines[sm.node.lineno - 1: sm.node.end_lineno]))).body[0]))
+                    if d:
+                        detail = f"{c.name}.{sn} differs from de-asynced {c.name}.{an}: async `{ast.unparse(d[1])[:100]}` vs sync `{ast.unparse(d[2])[:100]}` - the two APIs no longer behave alike"
+                rep.ob("C18.R5", f"shared|{c.name}.{sn}|pair", ok, sm.where, detail)
+    rep.floor("C18.R5", "hand-written sync/async method pairs in shared modules", npairs, 7)
